@@ -125,6 +125,9 @@ pub const PAYLOADS: &[&str] = &[
     "pv := [1, 2]\npw := pv[:]\npw[0] = 9\nprint(pv)\nprint(pv === pw)\npg := pv[0:2]\npg[1] = 8\nprint(pv)\npe := pv + []\npe[0] = 7\nprint(pv)\n",
     "pv := {\"a\": [1]}\npw := {pv..}\npw.b = 2\npw.a[0] = 5\nprint(pv)\nprint(pw)\n",
     "pv := \"s\"\npi := 0\nwhile $\"${pv}\" == \"s\" && pi < 3 {\npi += 1\nif pi == 2 {\npv = \"t\"\n}\n}\nprint(pi)\n",
+    "pv := -9223372036854775807 - 1\nprint(pv)\nprint(pv % -1)\nprint(pv + 0)\nprint(pv / -1)\nprint(\"after\")\n",
+    "pv := -9223372036854775807 - 1\npv /= -1\nprint(pv)\n",
+    "pv := \"crème brûlée\"\nprint(pv->len())\nprint(pv[:pv->len()] == pv)\nprint((pv + \"!\")[pv->len()])\npi := 0\nfor pe in pv {\npi += 1\n}\nprint(pi == pv->len())\n",
     "fn pf() {\npi := 0\nwhile true {\npi += 1\nif pi < 3 {\ncontinue\n} else {\nbreak\n}\n}\nreturn pi\n}\nprint(pf())\n",
 ];
 
